@@ -243,8 +243,64 @@ func (ov *overlaySet) writeJSON() (string, error) {
 	return p, os.WriteFile(p, b, 0o644)
 }
 
+var nativeTier = "quick"
+
+// nativeConform re-runs completed sample paths natively (inputs = the solver's model of each path) and compares
+// the outcome with what the interpreter saw: the harness must complete without a failed assertion, and on paths
+// without scheduler decisions it must reach the same labels. Returns (compared, mismatches).
+func nativeConform(ov *overlaySet, es *entrySpec, listPath string, samples []PathSample, timeout time.Duration) (int, []string) {
+	ovj, err := ov.writeJSON()
+	if err != nil {
+		return 0, []string{"conformance: " + err.Error()}
+	}
+	args := []string{"test", "-tags", "verif", "-vet=off", "-count=1", "-overlay", ovj, "-run", "^TestVerif" + es.name + "$", "-timeout", fmt.Sprintf("%ds", int(timeout.Seconds())), "-v", "./" + es.file.pkgDir}
+	cmd := exec.Command("go", args...)
+	cmd.Dir = repoRoot
+	cmd.Env = append(os.Environ(), "GOFLAGS=-mod=mod", "GOPROXY=off", "GOSUMDB=off", "GOTOOLCHAIN=local", "VERIF_CEX_LIST="+listPath, "VERIF_TIER="+nativeTier)
+	out, _ := cmd.CombinedOutput()
+	got := map[int][2]string{}
+	for _, l := range strings.Split(string(out), "\n") {
+		l = strings.TrimSpace(l)
+		if !strings.HasPrefix(l, "VERIF-CONF ") {
+			continue
+		}
+		rest := strings.TrimPrefix(l, "VERIF-CONF ")
+		sp := strings.IndexByte(rest, ' ')
+		if sp < 0 {
+			continue
+		}
+		var idx int
+		fmt.Sscan(rest[:sp], &idx)
+		rest = rest[sp+1:]
+		ri := strings.LastIndex(rest, " reach=")
+		if ri < 0 {
+			continue
+		}
+		got[idx] = [2]string{rest[:ri], rest[ri+len(" reach="):]}
+	}
+	var mism []string
+	compared := 0
+	for i, s := range samples {
+		g, ok := got[i]
+		if !ok {
+			mism = append(mism, fmt.Sprintf("conformance: sample %d (%s) produced no native result: %s", i, s.Decisions, lastLines(string(out), 8)))
+			break
+		}
+		compared++
+		if g[0] != "OK" {
+			mism = append(mism, fmt.Sprintf("conformance: sample %d inputs=%v: interpreter completed the path, native run ended %s", i, s.Inputs, g[0]))
+			continue
+		}
+		if !strings.Contains(s.Decisions, "s") && g[1] != strings.Join(s.Reached, ",") {
+			mism = append(mism, fmt.Sprintf("conformance: sample %d inputs=%v: interpreter reached [%s], native run reached [%s]", i, s.Inputs, strings.Join(s.Reached, ","), g[1]))
+		}
+	}
+	return compared, mism
+}
+
 // nativeReplay runs the harness natively on a counterexample. Returns (reproduced, output).
-func nativeReplay(ov *overlaySet, es *entrySpec, cexPath string, race bool, timeout time.Duration) (string, string) {
+func nativeReplay(ov *overlaySet, es *entrySpec, cexPath string, want *Violation, timeout time.Duration) (string, string) {
+	race := want != nil && want.Kind == "race"
 	ovj, err := ov.writeJSON()
 	if err != nil {
 		return "error", err.Error()
@@ -256,12 +312,22 @@ func nativeReplay(ov *overlaySet, es *entrySpec, cexPath string, race bool, time
 	args = append(args, "./"+es.file.pkgDir)
 	cmd := exec.Command("go", args...)
 	cmd.Dir = repoRoot
-	cmd.Env = append(os.Environ(), "GOFLAGS=-mod=mod", "GOPROXY=off", "GOSUMDB=off", "GOTOOLCHAIN=local", "VERIF_CEX="+cexPath)
+	cmd.Env = append(os.Environ(), "GOFLAGS=-mod=mod", "GOPROXY=off", "GOSUMDB=off", "GOTOOLCHAIN=local", "VERIF_CEX="+cexPath, "VERIF_TIER="+nativeTier)
 	out, err := cmd.CombinedOutput()
 	s := string(out)
 	switch {
+	case strings.Contains(s, "VERIF-ASSERT panic"):
+		// a native panic reproduces a panic found by the interpreter, not a failed assertion (it would rather mean
+		// that the harness does not run natively the way it does under the interpreter)
+		if want == nil || want.Kind == "panic" {
+			return "reproduced", s
+		}
+		return "native-panic-instead-of-" + want.Kind, s
 	case strings.Contains(s, "VERIF-ASSERT"):
-		return "reproduced", s
+		if want == nil || want.Kind != "assert" || strings.Contains(s, "VERIF-ASSERT "+want.Label) {
+			return "reproduced", s
+		}
+		return "other-assertion-failed-natively", s
 	case strings.Contains(s, "VERIF-OK"):
 		return "not-reproduced", s
 	case strings.Contains(s, "VERIF-ASSUME"):
@@ -319,7 +385,7 @@ func cmdCheck(args []string) int {
 	only := fs.String("entry", "", "run only this entry")
 	known := fs.String("known", "/verif/known_findings.json", "known findings file")
 	vrtPath := fs.String("vrt", "/verif/rt/vrt.go", "vrt runtime source")
-	budget := fs.Duration("budget", 0, "wall budget per entry (default 4m quick, 25m thorough)")
+	budget := fs.Duration("budget", 0, "wall budget per entry (default 10m quick, 40m thorough)")
 	noReplay := fs.Bool("noreplay", false, "skip native replay (debug)")
 	replayPath := fs.String("replay", "", "replay this counterexample file natively and exit")
 	verbose := fs.Bool("v", false, "verbose")
@@ -331,9 +397,9 @@ func cmdCheck(args []string) int {
 	seed := 0
 	fmt.Sscan(os.Getenv("VERIF_SEED"), &seed)
 	if *budget == 0 {
-		*budget = 4 * time.Minute
+		*budget = 10 * time.Minute
 		if *tier == "thorough" {
-			*budget = 25 * time.Minute
+			*budget = 40 * time.Minute
 		}
 	}
 	fail := func(msg string) int {
@@ -392,7 +458,7 @@ func cmdCheck(args []string) int {
 		}
 		for _, es := range entries {
 			if es.name == v.Harness {
-				status, out := nativeReplay(ov, es, mustAbs(*replayPath), v.Kind == "race", 300*time.Second)
+				status, out := nativeReplay(ov, es, mustAbs(*replayPath), &v, 300*time.Second)
 				fmt.Println(lastLines(out, 30))
 				fmt.Printf("REPLAY property=%s entry=%s label=%q status=%s\n", *prop, es.name, v.Label, status)
 				if status == "reproduced" || status == "reproduced-hang" {
@@ -446,6 +512,8 @@ func cmdCheck(args []string) int {
 		}
 	}
 	var knownLines, violationLines []string
+	conformed := 0
+	nativeTier = *tier
 	totalViol := 0
 	replays := 0
 	cexDir := "/verif/evidence/cex"
@@ -509,6 +577,29 @@ func cmdCheck(args []string) int {
 		if res.EndKinds["done"] == 0 && len(res.Violations) == 0 {
 			res.Inconclusive = append(res.Inconclusive, "vacuous: no path reaches the end of the harness (assert(false) twin not violated)")
 		}
+		// conformance of completed sample paths with the real build
+		if cfg.Conform > 0 && len(res.Violations) == 0 && !*noReplay {
+			var picked []PathSample
+			var list []map[string]any
+			for _, s := range res.Samples {
+				if s.End == "done" && len(picked) < cfg.Conform {
+					picked = append(picked, s)
+					list = append(list, map[string]any{"harness": es.name, "kind": "conform", "inputs": jsonSafeInputs(s.Inputs)})
+				}
+			}
+			if len(picked) > 0 {
+				listPath := filepath.Join(cexDir, fmt.Sprintf("%s-%s-conform.json", *prop, es.name))
+				b, _ := json.MarshalIndent(list, "", " ")
+				os.WriteFile(listPath, b, 0o644)
+				n, mism := nativeConform(ov, es, listPath, picked, 600*time.Second)
+				conformed += n - len(mism)
+				res.Conformed = n - len(mism)
+				if *verbose {
+					fmt.Fprintf(os.Stderr, "[%s] conformance: %d sample paths re-run natively, %d mismatches\n", es.name, n, len(mism))
+				}
+				res.Inconclusive = append(res.Inconclusive, mism...)
+			}
+		}
 		// violations: replay
 		for i, v := range res.Violations {
 			cexPath := filepath.Join(cexDir, fmt.Sprintf("%s-%s-%d.json", *prop, es.name, i))
@@ -518,13 +609,13 @@ func cmdCheck(args []string) int {
 			status := "skipped"
 			out := ""
 			if !*noReplay {
-				status, out = nativeReplay(ov, es, cexPath, v.Kind == "race", 120*time.Second)
+				status, out = nativeReplay(ov, es, cexPath, v, 120*time.Second)
 				replays++
 				if status != "reproduced" && status != "reproduced-hang" && len(v.Sched) > 0 {
 					// schedule-dependent: retry a few times natively, then fall back to the
 					// deterministic concrete re-execution in the interpreter
 					for k := 0; k < 3 && status != "reproduced"; k++ {
-						status, out = nativeReplay(ov, es, cexPath, v.Kind == "race", 120*time.Second)
+						status, out = nativeReplay(ov, es, cexPath, v, 120*time.Second)
 						replays++
 					}
 					if status != "reproduced" {
@@ -561,7 +652,7 @@ func cmdCheck(args []string) int {
 		}
 	}
 	// evidence
-	ev := buildEvidence(*prop, *tier, seed, pc, outs, loadT, time.Since(t0), totalViol, replays+nativeRuns, knownLines)
+	ev := buildEvidence(*prop, *tier, seed, pc, outs, loadT, time.Since(t0), totalViol, replays+nativeRuns+conformed, knownLines)
 	if *evid != "" {
 		os.MkdirAll(filepath.Dir(*evid), 0o755)
 		b, _ := json.MarshalIndent(ev, "", " ")
